@@ -159,6 +159,7 @@ def runPeriod (r : Report) (s : Section) : Report := Id.run do
   if quotaZ ≤ 0 then r := r.addCover "p-sec-quota-nonpositive"
   if periodZ ≤ 0 then r := r.addCover "p-sec-period-nonpositive"
   if align then r := r.addCover "p-sec-align"
+  if align && kvInt s.cfg "tz" 0 ≠ 0 then r := r.addCover "p-sec-align-zone-offset"
   if kvNat s.cfg "nlim" 1 > 1 then r := r.addCover "p-sec-several-limiters"
   for l in s.lines do
     r := { r with ops := r.ops + 1 }
@@ -232,7 +233,10 @@ def runPeriod (r : Report) (s : Section) : Report := Id.run do
         r := r.addCover "p-align-period-zero-panics"
         if !(l.obs.headD "" == "PANIC" && l.obs.contains "divide") then
           r := r.mismatch s.idx l.idx "PANIC runtime error: integer divide by zero" impl
-      | some (.inr msg) => r := r.mismatch s.idx l.idx msg impl
+      | some (.inr msg) =>
+        if msg.startsWith "window " then
+          r := r.violation s.idx l.idx s!"period: Align(): the life started by take {k} does not end on a multiple of the period of the local clock (unix + zone offset): {msg}"
+        else r := r.mismatch s.idx l.idx msg impl
       | some (.inl w) =>
         let res := d.sys.take quota w k
         d := { d with sys := res.1 }
@@ -489,7 +493,10 @@ def runToken (r : Report) (s : Section) : Report := Id.run do
             sys := (sys.step true c (.monExit j)).1
         d := { d with sys := sys, up := true, conn := { d.conn with link := .up }, pingOk := true }
         r := r.addCover (if inWindow then "t-latefail-in-monitor-window" else "t-latefail-plain")
-        if l.obs.headD "" = "TIMEOUT-monitor" then
+        if l.obs.headD "" = "PINGBROKEN" then
+          r := r.violation s.idx l.idx s!"token: the server answers PING with PONG but Redis.Ping() reports false [{impl}]: the monitor goroutine can never bring an instance back from its local limiter to the shared bucket"
+          abandoned := true
+        else if l.obs.headD "" = "TIMEOUT-monitor" then
           r := r.addCover "t-up-timeout-section-abandoned"
           abandoned := true
         else
@@ -504,7 +511,10 @@ def runToken (r : Report) (s : Section) : Report := Id.run do
         sys := (sys.step true c (.monExit i)).1
       d := { d with sys := sys, up := true, conn := { d.conn with link := .up }, pingOk := true }
       r := r.addCover "t-up"
-      if l.obs.headD "" = "TIMEOUT-monitor" then
+      if l.obs.headD "" = "PINGBROKEN" then
+        r := r.violation s.idx l.idx s!"token: the server answers PING with PONG but Redis.Ping() reports false [{impl}]: the monitor goroutine can never bring an instance back from its local limiter to the shared bucket"
+        abandoned := true
+      else if l.obs.headD "" = "TIMEOUT-monitor" then
         -- the real 100 ms ping goroutine did not bring every instance back within the harness' (generous)
         -- real-time bound: recovery latency is not part of the property and depends on machine load, so
         -- the rest of this section cannot be compared; `driver` reports it if it happens more than once
